@@ -233,7 +233,7 @@ fn end_to_end(run: &mut Run, quick: bool) {
                 }
                 out
             };
-            let cfg = NetCfg { max_states: if quick { 3000 } else { 30000 }, max_path: 200, budget: std::time::Duration::from_secs(if quick { 5 } else { 60 }), workers: crate::util::workers() };
+            let cfg = NetCfg { max_states: if quick { 3000 } else { 30000 }, max_path: 200, budget: std::time::Duration::from_secs(if quick { 5 } else { 60 }), workers: crate::util::workers(), by_deviations: false };
             match explore_net(&mk, &on_state, &on_q, &cfg) {
                 Ok((st, findings)) => {
                     states += st.states;
